@@ -314,9 +314,12 @@ class VectorSpline2D(BaseGridder):
         east, north = n_1d_arrays(coordinates, n=2)
         cast = np.broadcast(*coordinates[:2])
         npoints = cast.size
+        # Use a floating point type for the predictions even if the
+        # coordinates are integers
+        dtype = np.result_type(east.dtype, "float32")
         components = (
-            np.empty(npoints, dtype=east.dtype),
-            np.empty(npoints, dtype=east.dtype),
+            np.empty(npoints, dtype=dtype),
+            np.empty(npoints, dtype=dtype),
         )
         if parse_engine(self.engine) == "numba":
             components = predict_2d_numba(
